@@ -33,6 +33,9 @@ func c18(tier string) []*explore.Scenario {
 	for k := 0; k <= 3; k++ {
 		out = append(out, c18Stop(k, bound))
 	}
+	for _, newKey := range []bool{true, false} {
+		out = append(out, c18StopRace(newKey, bound+1))
+	}
 	seqLen := 5
 	if tier == "thorough" {
 		seqLen = 7
@@ -466,6 +469,62 @@ func c18OpSeq(first, maxLen int) *explore.Scenario {
 			vsched.Quiesce()
 			if !e.runDone {
 				vsched.Fail(fam+"|run-hang", "after%s: Run did not return after Stop; threads: %s", seq, threadList())
+			}
+		},
+	}
+}
+
+// c18StopRace: Stop runs concurrently with the arrival of an envelope (for a
+// key seen before / never seen); afterwards Cancel of every key returns, and
+// reads and writes on the connections that were announced fail.
+func c18StopRace(newKey bool, bound int) *explore.Scenario {
+	fam := "C18/stop"
+	return &explore.Scenario{
+		Name: fmt.Sprintf("C18/stop-race/new-key=%v", newKey), Family: fam, Prop: "C18", Bound: bound,
+		Run: func() {
+			e := newC18(true)
+			vsched.Settle()
+			e.shared.A.Inject(c18Msg(1, "k0"))
+			vsched.Quiesce()
+			vsched.Explore(true)
+			key := "k0"
+			if newKey {
+				key = "k1"
+			}
+			vsched.GoNamed("remote", func() { e.shared.A.Inject(c18Msg(2, key)) })
+			vsched.GoNamed("stopper", func() { e.dm.Stop() })
+			vsched.Quiesce()
+			if !e.runDone {
+				vsched.Fail(fam+"|run-hang", "Stop concurrent with an arriving envelope for %s did not end the run loop; threads: %s", key, threadList())
+			}
+			cancelled := 0
+			vsched.GoNamed("canceller", func() {
+				for _, k := range []string{"k0", "k1", "never-seen"} {
+					e.dm.Cancel(k)
+					cancelled++
+				}
+			})
+			vsched.Quiesce()
+			if cancelled != 3 {
+				vsched.Fail(fam+"|cancel-hang", "after Stop raced with an envelope for %s, Cancel blocks forever (%d of 3 Cancel calls returned); threads: %s", key, cancelled, threadList())
+				return
+			}
+			for idx, rw := range e.conns {
+				rw := rw
+				wdone, rdone := false, false
+				var werr, rerr error
+				vsched.GoNamed("late-writer", func() { werr = rw.Write(context.Background(), c18Msg(99, "x")); wdone = true })
+				vsched.GoNamed("late-reader", func() { _, rerr = rw.Read(context.Background()); rdone = true })
+				vsched.Quiesce()
+				if !wdone || werr == nil || !rdone || rerr == nil {
+					vsched.Fail(fam+"|use-after-cancel", "connection %d after Stop and Cancel: write returned=%v err=%v, read returned=%v err=%v", idx, wdone, werr, rdone, rerr)
+				}
+			}
+			e.shared.A.Break()
+			e.shared.B.Break()
+			vsched.Quiesce()
+			if ts := vsched.Threads(); len(ts) > 0 {
+				vsched.Fail(fam+"|goroutine-leak", "after Stop, Cancel of every key and the transport closing: %s", threadList())
 			}
 		},
 	}
